@@ -7,7 +7,7 @@
    what is retransmitted / confirmed is what is outstanding, not what was requested meanwhile, fh = a negative answer ends a
    REQUEST/RESPOND service of the unbalanced primary.  Theorems named _refuted are about the original code. *)
 From Coq Require Import ZArith List Bool.
-From L60870 Require Import Link.Ft12 Link.LinkSec Link.LinkPrim Link.LinkProofs Link.LinkHist.
+From L60870 Require Import Link.Ft12 Link.LinkSec Link.LinkPrim Link.LinkProofs Link.LinkHist Link.LinkOnce Link.LinkRepeat.
 Import ListNotations.
 Local Open Scope Z_scope.
 
@@ -30,6 +30,28 @@ Theorem C15_new_frame_octets_balanced : forall v c now dir p q b,
   snd (pb_run v c now dir p q) = [OTx (enc_fixed (alen c) 2 (pb_other p) true dir b true)] \/
   exists d, snd (pb_run v c now dir p q) = tx_opt (enc_var (alen c) 3 (pb_other p) true dir b true d).
 Proof. exact pb_new_frame_octets. Qed.
+
+(* ---------------- history level: EVERY frame a primary writes while it stays inside an exchange (SEND/CONFIRM, REQUEST/RESPOND) is octet
+   for octet the frame that opened the exchange -- along every sequence of received frames, runs at any clock values and application
+   calls (send, class request, link test) made at any time.  rep_trace / brep_trace list (what was written, what opened the exchange). *)
+Theorem C15_retransmissions_identical_unbalanced : forall v c evs s last, fg v = true -> fc_ v = true -> rgood c s last ->
+  Forall (fun p => fst p = snd p) (rep_trace v c s last evs).
+Proof. exact sc_retransmissions_identical. Qed.
+Theorem C15_retransmissions_identical_unbalanced_from_power_up : forall v c a evs, fg v = true -> fc_ v = true ->
+  Forall (fun p => fst p = snd p) (rep_trace v c (sc_init a) [] evs).
+Proof. exact sc_retransmissions_identical_from_power_up. Qed.
+Theorem C15_retransmissions_identical_unbalanced_refuted : exists v c s evs,
+  fg v = false /\ rgood c s [] /\ exists o l, In (o, l) (rep_trace v c s [] evs) /\ o <> l.
+Proof. exact sc_retransmissions_identical_refuted. Qed.
+Theorem C15_retransmissions_identical_balanced : forall v c dir evs p last, fg v = true -> bgood c dir p last ->
+  Forall (fun x => fst x = snd x) (brep_trace v c dir p last evs).
+Proof. exact pb_retransmissions_identical. Qed.
+Theorem C15_retransmissions_identical_balanced_from_power_up : forall v c dir other idle evs, fg v = true ->
+  Forall (fun x => fst x = snd x) (brep_trace v c dir (pb_init other idle) [] evs).
+Proof. exact pb_retransmissions_identical_from_power_up. Qed.
+Theorem C15_retransmissions_identical_balanced_refuted : exists v c dir p evs,
+  fg v = false /\ bgood c dir p [] /\ exists o l, In (o, l) (brep_trace v c dir p [] evs) /\ o <> l.
+Proof. exact pb_retransmissions_identical_refuted. Qed.
 
 (* ---------------- primary, balanced *)
 Theorem C15_toggle_balanced : forall v c now dir p d rest,
